@@ -60,7 +60,7 @@ def from_ww3(dset):
         Formated dataset with the SpecDataset accessor in the `spec` namespace.
 
     """
-    vars_and_dims = set(dset.data_vars) | set(dset.dims)
+    vars_and_dims = set(dset.variables) | set(dset.dims)
     mapping = {k: v for k, v in MAPPING.items() if k != v and k in vars_and_dims}
     dset = dset.rename(mapping)
     # Ensuring lon,lat are not function of time
